@@ -108,16 +108,21 @@ type HookSpec struct {
 	PostGet bool   `json:"postget"`
 	PrePut  bool   `json:"preput"`
 	// behaviour: a pure function of the phase and the key number n
-	VetoPhase    string `json:"veto_phase,omitempty"` // "" preget postget preput
-	VetoMod      int    `json:"veto_mod,omitempty"`   // veto when n % VetoMod == VetoRem
-	VetoRem      int    `json:"veto_rem,omitempty"`
-	ReplPhase    string `json:"repl_phase,omitempty"` // "" postget preput
-	ReplMod      int    `json:"repl_mod,omitempty"`
-	ReplRem      int    `json:"repl_rem,omitempty"`
-	ShareWith    int    `json:"share_with"`
-	RegAt        int    `json:"reg_at"`
-	CancelAt     int    `json:"cancel_at"` // -1 after all workers finished, -2 never
-	DoubleCancel bool   `json:"double_cancel,omitempty"`
+	VetoPhase string `json:"veto_phase,omitempty"` // "" preget postget preput
+	VetoMod   int    `json:"veto_mod,omitempty"`   // veto when n % VetoMod == VetoRem
+	VetoRem   int    `json:"veto_rem,omitempty"`
+	ReplPhase string `json:"repl_phase,omitempty"` // "" postget preput
+	ReplMod   int    `json:"repl_mod,omitempty"`
+	ReplRem   int    `json:"repl_rem,omitempty"`
+	// what a replacement looks like (default: same Score/Tag, copy of the meta)
+	ReplSetTag    string `json:"repl_set_tag,omitempty"`
+	ReplAddScore  int    `json:"repl_add_score,omitempty"`
+	ReplFreshMeta bool   `json:"repl_fresh_meta,omitempty"` // new, valid metadata (also replaces deleted/expired records in PostGet)
+	ReplSecret    bool   `json:"repl_secret,omitempty"`     // replacement is flagged secret
+	ShareWith     int    `json:"share_with"`
+	RegAt         int    `json:"reg_at"`
+	CancelAt      int    `json:"cancel_at"` // -1 after all workers finished, -2 never
+	DoubleCancel  bool   `json:"double_cancel,omitempty"`
 }
 
 // PlanSpec parameterises the fixed templates of the classes pair and shared.
@@ -144,6 +149,10 @@ type PlanSpec struct {
 	// hooks template HP: Hooks[0] parks inside its own callback (the operation is in
 	// the middle of its hook chain) while another hook is cancelled
 	HPRounds []HPRound `json:"hp_rounds,omitempty"`
+	// hooks template HC: a sequential script over dependent hooks (a replacing hook
+	// followed in registration order by hooks whose condition is on the replaced
+	// field), with subscriptions that distinguish the input from the stored record
+	HCSteps []HCStep `json:"hc_steps,omitempty"`
 }
 
 // ---------------------------------------------------------------------------------
@@ -255,4 +264,11 @@ type HPRound struct {
 	Phase  string `json:"phase"`  // phase in which Hooks[0] parks: preget postget preput
 	Target int    `json:"target"` // hook cancelled while the operation is parked
 	N      int    `json:"n"`      // key number of the operation
+}
+
+// HCStep is one step of the hooks template HC.
+type HCStep struct {
+	Kind string  `json:"kind"` // op | cancel | register
+	Op   *OpSpec `json:"op,omitempty"`
+	Hook int     `json:"hook,omitempty"`
 }
